@@ -19,7 +19,12 @@ grouping of locals) and the same multiset of emitted C definitions (real w2c2 ru
 output of re-encoded modules behaves like the module in V8.  Re-encodings reach every LEB field inside function bodies
 (memarg align/offset, local/global/func/type/label/data indices, br_table vectors, call_indirect type AND table index,
 prefixed sub-opcodes, i32/i64.const) and the locals vector (counts padded; groups split / merged; zero-count groups at
-the beginning, in the middle, at the end); every variant is checked to be accepted by V8.  (Block types and the
+the beginning, in the middle, at the end); every variant is checked to be accepted by V8.  Custom sections whose names
+are prefixes / extensions of the two names the reader knows (nam, names, namespace, name.idx, .debug_, .debug_lin,
+.debug_line, .debug_linex, empty, 300 bytes …) with random or name-subsection-looking content are inserted at every
+section boundary and right before / after a real name section: with and without -g the dump and the emitted definitions
+must be those of the module without them.  A real name section in front of the function section and two name sections
+(the second growing the table of the first) must be accepted under -g (reader, translator, sanitized reader).  (Block types and the
 reserved memory-index bytes of memory.size/grow/fill/copy/init and atomic.fence are single bytes for V8: no variant.)
 """
 import collections
@@ -29,6 +34,7 @@ import os
 import random
 import re
 import subprocess
+import zlib
 
 import vlib
 import leb_harness as lh
@@ -199,6 +205,38 @@ def encodings_of(rng, seed, profile, index, nrand):
         payload = bytes(rng.getrandbits(8) for _ in range(rng.choice((0, 1, 5, 127, 128, 300))))
         mm.customs.append(A.CustomSection(nm, payload, slot))
         out.append((f"custom@{slot}:{nm!r}", encode(mm, Policy("random", rng))))
+    # custom sections whose names are prefixes / extensions of the two names the reader knows ("name", ".debug_"), at every
+    # section boundary and right before / after a real name section; they are no name section: with and without -g they
+    # must change nothing
+    nfun = len(m.imported("func")) + len(m.funcs)
+    for slot in range(13):
+        mm = module_for(seed, profile, index)
+        nm = NAME_LIKE[(slot + 3 * index) % len(NAME_LIKE)]
+        mm.customs.append(A.CustomSection(nm, name_like_payload(rng, nfun), slot))
+        out.append((f"namelike@{slot}:{nm[:16]!r}", encode(mm, Policy("random" if slot % 2 else "minimal", rng))))
+    real_names = [c for c in m.customs if isinstance(c.payload, A.NameSection)]
+    if real_names:
+        for where in ("before", "after"):
+            mm = module_for(seed, profile, index)
+            k = next(i for i, c in enumerate(mm.customs) if isinstance(c.payload, A.NameSection))
+            nm = NAME_LIKE[(index + (where == "after")) % 4 + 1]      # names / namespace / name.idx / nam
+            extra = A.CustomSection(nm, name_like_payload(rng, nfun), mm.customs[k].slot)
+            mm.customs.insert(k if where == "before" else k + 1, extra)
+            out.append((f"namelike@{where}-name:{nm!r}", encode(mm)))
+    # a real name section IN FRONT of the function section (only the imported functions are known there), and two name
+    # sections (the second one finds, and grows, the table of the first): a custom section never invalidates a module
+    if nfun:
+        nimp = len(m.imported("func"))
+        for variant in ("early", "twice", "early-imports-only"):
+            mm = module_for(seed, profile, index)
+            mm.customs = [c for c in mm.customs if not isinstance(c.payload, A.NameSection)]
+            if variant == "early-imports-only" and not nimp:
+                continue
+            upto = nimp if variant == "early-imports-only" else nfun
+            mm.customs.append(A.CustomSection(b"name", A.NameSection(module_name=b"m", func_names=[(i, b"fn_%d" % i) for i in range(upto)]), 2))
+            if variant == "twice":
+                mm.customs.append(A.CustomSection(b"name", A.NameSection(func_names=[(i, b"gn_%d" % (i % max(1, nfun - 1))) for i in range(nfun)]), 12))
+            out.append((f"names-{variant}", encode(mm, Policy("random" if variant == "twice" else "minimal", rng))))
     for j in range(nrand):
         mm = module_for(seed, profile, index)
         add_random_customs(rng, mm)
@@ -206,6 +244,25 @@ def encodings_of(rng, seed, profile, index, nrand):
                                                    data_flag=rng.choice(("keep", 0, 2, "random")), pad_subop=True,
                                                    locals=rng.choice(("keep", "random", "random"))))))
     return m, out
+
+
+NAME_LIKE = [b"names", b"namespace", b"name.idx", b"nam", b"name_", b".debug_", b".debug_lin", b".debug_line", b".debug_linex", b".debug",
+             b"", b"name" + b"x" * 300, b"NAME", b"na"]
+
+
+def name_like_payload(rng, nfun):
+    """content of a custom section that is NOT the name section: random bytes, or bytes that would be a function-names
+    subsection naming existing functions if (wrongly) read as name-section content"""
+    from wasmgen import leb_u
+    if nfun and rng.random() < 0.6:
+        ents = b""
+        idxs = sorted(rng.sample(range(nfun), min(nfun, rng.randint(1, 3))))
+        for i in idxs:
+            nm = b"injected_%d" % i
+            ents += leb_u(i) + leb_u(len(nm)) + nm
+        body = leb_u(len(idxs)) + ents
+        return b"\x01" + leb_u(len(body)) + body
+    return bytes(rng.getrandbits(8) for _ in range(rng.choice((0, 1, 5, 40, 127, 128, 300))))
 
 
 LOCALS_VARIANTS = ("zero_lead", "zero_mid", "zero_end", "zero_all", "split", "merge")
@@ -447,7 +504,7 @@ def run_modules(chk, d, repo, broken):
                 cases.append((g, tag, b, False))
                 enc_hist[tag.split("@")[0].split(":")[0].rstrip("0123456789")] += 1
             # under -g the name section is parsed as well
-            for tag, b in encs[:2] + encs[-1:]:
+            for tag, b in encs[:2] + encs[-1:] + [e for e in encs if e[0].startswith("namelike@") or e[0].startswith("names-")]:
                 cases.append((g, tag + "+g", b, True))
     # the directed module: every kind of immediate, locals of four types
     dm = directed_immediates()
@@ -537,6 +594,7 @@ def run_modules(chk, d, repo, broken):
     # sanitizer verdict <-> model `ub` on a subset (instrumented reader is slower)
     sub = [i for i in range(len(allcases)) if allcases[i][0] != "corpus"][:: (7 if tier == "quick" else 6)]
     sub += [i for i in range(len(allcases)) if allcases[i][0] == "witness" and i not in sub]
+    sub += [i for i in range(len(allcases)) if allcases[i][1].startswith("names-") and allcases[i][3] and i not in sub]
     slines = [rd.line_for(allcases[i][2], allcases[i][3], True) for i in sub]
     sreal, reports = rd.run_lines(exe_san, slines, sanitized=True)
     smodel = vlib.DriverProc(READERDRIVER).batch(slines, timeout=1800)
@@ -572,35 +630,72 @@ def run_modules(chk, d, repo, broken):
                               f"two spec-equivalent encodings ({ref[0]} / {tag}) of module {g} decode to different modules in the real reader",
                               {"module": g, "encodings": [ref[0], tag], "hex": [ref[2].hex(), b.hex()], "mode": "reader-pair",
                                "replay_cmd": "python3 tools/check.py C08 --replay <this file>"}, True)
+        # the same under -g for the name-like custom sections (reference: the minimal encoding under -g)
+        if (g, "min+g", True) in idx:
+            rg = real[idx[(g, "min+g", True)]]
+            for tag, b in encs:
+                if not tag.startswith("namelike@") or not rg.startswith("ok"):
+                    continue
+                r = real[idx[(g, tag + "+g", True)]]
+                if not r.startswith("ok"):
+                    chk.violation("valid-encoding-rejected-namelike-g",
+                                  f"under -g the real reader rejects module {g} once a custom section that is not the name section is added ({tag}): {r}",
+                                  {"module": g, "encoding": tag, "hex": b.hex(), "mode": "reader", "debug": True,
+                                   "replay_cmd": "python3 tools/check.py C08 --replay <this file>"}, True)
+                elif normalise_dump(r) != normalise_dump(rg):
+                    chk.violation("decoded-module-differs-namelike-g",
+                                  f"under -g a custom section that is not the name section ({tag}) changes the decoded module {g}",
+                                  {"module": g, "encodings": ["min", tag], "hex": [encs[0][1].hex(), b.hex()], "mode": "reader-pair", "debug": True,
+                                   "replay_cmd": "python3 tools/check.py C08 --replay <this file>"}, True)
+            # name sections in front of the function section / twice: accepted under -g (their content may differ)
+            for tag, b in encs:
+                if tag.startswith("names-"):
+                    r = real[idx[(g, tag + "+g", True)]]
+                    if not r.startswith("ok"):
+                        chk.violation(f"valid-encoding-rejected-{tag}-g",
+                                      f"under -g the real reader rejects module {g} because of the position / number of its name sections ({tag}): {r}",
+                                      {"module": g, "encoding": tag, "hex": b.hex(), "mode": "reader", "debug": True,
+                                       "replay_cmd": "python3 tools/check.py C08 --replay <this file>"}, True)
         # metamorphic run of the real translator
         fixed = [e for e in encs if e[0] in ("min", "max") or e[0].startswith("min-") or e[0].startswith("max-")]
+        fixed += [e for e in encs if e[0].startswith("names-")]
         customs = [e for e in encs if e[0].startswith("custom@")]
         rnds = [e for e in encs if e[0].startswith("rnd")]
         pick = fixed + customs[::4] + rnds
+        namelike = [e for e in encs if e[0].startswith("namelike@")]
         if tier == "quick":
             pick = fixed + rnds[-2:]
-        refdefs = None
-        for tag, b in pick:
-            rc, defs = translate(w2c2, d, f"{g.replace(':', '_')}_{re.sub(r'[^A-Za-z0-9]+', '_', tag)}", b)
-            ntrans += 1
-            chk.count_case(("translate", b), True, None)
-            if rc != 0:
-                chk.violation(f"translator-rejects-{tag.split('@')[0].split(':')[0].rstrip('0123456789')}",
-                              f"w2c2 exits {rc} on a valid encoding ({tag}) of module {g}",
-                              {"module": g, "encoding": tag, "hex": b.hex(), "mode": "translate",
-                               "replay_cmd": "python3 tools/check.py C08 --replay <this file>"}, True)
-                continue
-            if refdefs is None:
-                refdefs = (tag, defs, b)
-            elif defs != refdefs[1]:
-                a = collections.Counter(refdefs[1])
-                c = collections.Counter(defs)
-                diff = list((a - c).elements())[:2] + list((c - a).elements())[:2]
-                chk.violation(f"emitted-definitions-differ-{tag.split('@')[0].split(':')[0].rstrip('0123456789')}",
-                              f"w2c2 emits different C definitions for two spec-equivalent encodings ({refdefs[0]} / {tag}) of module {g}",
-                              {"module": g, "encodings": [refdefs[0], tag], "hex": [refdefs[2].hex(), b.hex()],
-                               "first_differences": [x[:400] for x in diff], "mode": "translate-pair",
-                               "replay_cmd": "python3 tools/check.py C08 --replay <this file>"}, True)
+            namelike = [e for k, e in enumerate(namelike) if k % 3 == zlib.crc32(g.encode()) % 3 or "-name:" in e[0]]
+        nameseq = [e for e in encs if e[0].startswith("names-")]
+        for opts, sel in ((("-t", "1"), pick + namelike), (("-g", "-t", "1"), [encs[0]] + namelike), (("-g", "-t", "1"), nameseq)):
+            refdefs = None
+            gflag = "-g" in opts
+            only_rc = sel is nameseq        # the names differ by construction: acceptance only
+            sfx = "-g" if gflag else ""
+            for tag, b in sel:
+                rc, defs = translate(w2c2, d, f"{g.replace(':', '_')}_{re.sub(r'[^A-Za-z0-9]+', '_', tag)}{sfx.replace('-', '_')}", b, opts)
+                ntrans += 1
+                chk.count_case(("translate", b, gflag), True, None)
+                kind = tag.split('@')[0].split(':')[0].rstrip('0123456789') + sfx
+                if rc != 0:
+                    chk.violation(f"translator-rejects-{kind}",
+                                  f"w2c2 {' '.join(opts)} exits {rc} on a valid encoding ({tag}) of module {g}",
+                                  {"module": g, "encoding": tag, "hex": b.hex(), "mode": "translate", "opts": list(opts),
+                                   "replay_cmd": "python3 tools/check.py C08 --replay <this file>"}, True)
+                    continue
+                if only_rc:
+                    continue
+                if refdefs is None:
+                    refdefs = (tag, defs, b)
+                elif defs != refdefs[1]:
+                    a = collections.Counter(refdefs[1])
+                    c = collections.Counter(defs)
+                    diff = list((a - c).elements())[:2] + list((c - a).elements())[:2]
+                    chk.violation(f"emitted-definitions-differ-{kind}",
+                                  f"w2c2 {' '.join(opts)} emits different C definitions for two spec-equivalent encodings ({refdefs[0]} / {tag}) of module {g}",
+                                  {"module": g, "encodings": [refdefs[0], tag], "hex": [refdefs[2].hex(), b.hex()], "opts": list(opts),
+                                   "first_differences": [x[:400] for x in diff], "mode": "translate-pair",
+                                   "replay_cmd": "python3 tools/check.py C08 --replay <this file>"}, True)
     chk.coverage["translator_runs"] = ntrans
     chk.coverage["modules"] = len(groups)
     run_behaviour(chk, d, repo, w2c2, groups, mods, tier)
@@ -762,20 +857,22 @@ def replay(path):
     mode = r.get("mode")
     with vlib.scratch("c08r-") as d:
         repo = vlib.copy_repo(os.path.join(d, "repo"))
+        dbg = bool(r.get("debug"))
+        opts = tuple(r.get("opts") or ("-t", "1"))
         if mode == "reader":
             exe = rd.build(repo, d)
-            out, _ = rd.run_lines(exe, [rd.line_for(bytes.fromhex(r["hex"]))])
+            out, _ = rd.run_lines(exe, [rd.line_for(bytes.fromhex(r["hex"]), dbg)])
             print("real reader:", out[0][:300])
             return 0 if out[0].startswith("ok") else 1
         if mode == "reader-pair":
             exe = rd.build(repo, d)
-            out, _ = rd.run_lines(exe, [rd.line_for(bytes.fromhex(h)) for h in r["hex"]])
+            out, _ = rd.run_lines(exe, [rd.line_for(bytes.fromhex(h), dbg) for h in r["hex"]])
             a, b = [normalise_dump(x) for x in out]
             print("decoded modules equal:", a == b)
             return 0 if a == b else 1
         if mode == "translate":
             w = rd.build_w2c2(repo, d)
-            rc, _ = translate(w, d, "r", bytes.fromhex(r["hex"]))
+            rc, _ = translate(w, d, "r", bytes.fromhex(r["hex"]), opts)
             print("w2c2 exit status:", rc)
             return 0 if rc == 0 else 1
         if mode == "behaviour":
@@ -796,7 +893,7 @@ def replay(path):
             return 1 if diffs else 0
         if mode == "translate-pair":
             w = rd.build_w2c2(repo, d)
-            res = [translate(w, d, "r%d" % i, bytes.fromhex(h)) for i, h in enumerate(r["hex"])]
+            res = [translate(w, d, "r%d" % i, bytes.fromhex(h), opts) for i, h in enumerate(r["hex"])]
             same = res[0] == res[1]
             print("emitted definitions equal:", same)
             return 0 if same else 1
